@@ -138,7 +138,11 @@ approximate_partition_aux(const PPL::Congruence& c,
   const Grid gr_copy(gr);
   gr.add_congruence(c);
   if (gr.is_empty()) {
-    r.add_disjunct(gr_copy);
+    // Do not add empty disjuncts (this also covers the congruences
+    // that follow the one that made gr empty).
+    if (!gr_copy.is_empty()) {
+      r.add_disjunct(gr_copy);
+    }
     return true;
   }
 
